@@ -107,6 +107,7 @@ inductive DOp where
   | exec (c : Engine.Command)
   | rollback (i : Nat)
   | reload          -- reload the engine from its own current logs (resume from the recorded point)
+  | refuse (console : Bool)   -- a command the engine refused with an exception
 
 def getOp (j : Json) : Except String DOp := do
   match j.getObjVal? "exec" with
@@ -114,7 +115,10 @@ def getOp (j : Json) : Except String DOp := do
   | .error _ =>
     match j.getObjVal? "rollback" with
     | .ok i => pure (.rollback (← i.getNat?))
-    | .error _ => pure .reload
+    | .error _ =>
+      match j.getObjVal? "refuse" with
+      | .ok k => pure (.refuse ((← str k) == "console"))
+      | .error _ => pure .reload
 
 def respJson (r : OpResp Nat Nat) : Json :=
   Json.mkObj [("index", .num r.index), ("command", commandJson r.command),
@@ -138,6 +142,8 @@ def engine (fn : String) (j : Json) : Option (Except String Json) :=
           | .exec c => exec t.P id id t.clockOf t.viewOf dhash 0 e c
           | .rollback i => rollback e i
           | .reload => reload e.logs
+          | .refuse true => refuseConsole id 0 e
+          | .refuse false => refuseOp e
         outs := outs.push (Json.mkObj [("n", .num e.logs.length),
           ("last", match e.logs.getLast? with | some l => oplogJson l | none => .null),
           ("buffered", .arr (e.buffered.map eventJson).toArray),
